@@ -1515,6 +1515,8 @@ class FDE:
                     return n == 'all'
                 if n in ('list', 'tuple') and type(args[0]).__name__ in _ITER_TYPES:
                     return list(args[0]) if n == 'list' else tuple(args[0])
+                if n in ('list', 'tuple') and len(args) == 1 and isinstance(args[0], Obj):
+                    return Opaque('%s(%s)' % (n, args[0].name))      # the built-in content of a node object, as a plain list / tuple
                 if n in ('list', 'tuple') and isinstance(args[0], (list, tuple)):
                     return list(args[0]) if n == 'list' else tuple(args[0])
                 if n == 'len' and isinstance(args[0], (dict, list, tuple, str)):
@@ -1529,6 +1531,8 @@ class FDE:
                 return ExcValue(n, args)
             if n == 'id' and len(args) == 1 and n not in env:
                 return id(args[0])
+            if n == 'dict' and len(args) == 1 and not kwargs and n not in env and isinstance(args[0], Obj):
+                return Opaque('dict(%s)' % args[0].name)
             if n in ('str', 'repr') and len(args) == 1 and n not in env and isinstance(args[0], (Obj, Opaque)):
                 return Opaque('%s(%s)' % (n, getattr(args[0], 'name', '?')))       # text of an abstract object: some string
             if n in _PURE_BUILTINS and n not in env and all(_concrete(a) for a in args) and all(_concrete(v) for v in kwargs.values()):
